@@ -20,6 +20,11 @@ Theorem C13_some : forall p a buf i, a mod 8 = 0 -> first_occ buf i ->
 Proof. exact c13_some. Qed.
 Print Assumptions C13_some.
 
+(* a buffer that does not start at an 8-aligned address is refused whatever it contains *)
+Theorem C13_misaligned : forall p a buf, a mod 8 <> 0 -> find_header p a buf = Err EWrongAlignment.
+Proof. exact c13_misaligned. Qed.
+Print Assumptions C13_misaligned.
+
 (* never a panic, never an out-of-bounds read, for every address and buffer (length 0 included) *)
 Theorem C13_total : forall p a buf,
   is_panic (find_header p a buf) = false /\ is_fault (find_header p a buf) = false.
